@@ -1,12 +1,117 @@
 import D2V.Model.Edit
-/-! C40 — editing API (placeholder lemmas; replaced by the real development) -/
+import D2V.Proofs.EditDeltas
+/-!
+  C40 — ID-change predictions match the edits they predict.
+
+  Over the abstract semantics `Edit.Spec` (the diagram as objects + connections, delete / rename / move / reconnect as
+  element-wise transformations, the prediction as "old ID ↦ new ID for every survivor whose ID changes"):
+  for EVERY diagram with unique labels and unique IDs, every target, every valid or invalid choice of collision names,
+  the prediction agrees with the edit in the sense of the property sentence (`deltasAgree`, the very predicate the
+  driver evaluates on the real before/after pair and the real `*IDDeltas` output).
+-/
 namespace D2V.Edit
 
-theorem C40_firstFailing_none_iff (cs : List Clause) : firstFailing cs = none ↔ allHold cs = true := by
-  induction cs with
-  | nil => simp [firstFailing, allHold]
-  | cons c r ih =>
-    unfold firstFailing
-    cases h : c.holds <;> simp [allHold, h] at * <;> exact ih
+/-- what `deltasAgree` says, in words: for every element `(l, i)` before the edit — if an element with label `l`
+    exists afterwards its ID is the predicted one (`lookupD` = the prediction, or the old ID when nothing is
+    predicted); otherwise (the element was removed) no prediction exists for `i`. -/
+theorem deltasAgree_iff {L ι : Type} [BEq L] [BEq ι] (before after : List (L × ι)) (deltas : List (ι × ι)) :
+    deltasAgree before after deltas = true ↔
+      ∀ li ∈ before,
+        (∀ li', after.find? (·.1 == li.1) = some li' → (li'.2 == lookupD deltas li.2) = true) ∧
+        (after.find? (·.1 == li.1) = none → inDom deltas li.2 = false) := by
+  unfold deltasAgree
+  rw [List.all_eq_true]
+  constructor
+  · intro h li hli
+    have := h li hli
+    constructor
+    · intro li' hf; rw [hf] at this; exact this
+    · intro hf; rw [hf] at this; simpa using this
+  · intro h li hli
+    have := h li hli
+    cases hf : after.find? (·.1 == li.1) with
+    | none => simp [this.2 hf]
+    | some li' => exact this.1 li' hf
+
+theorem mapPath_label (f : Path → Path) (o : Obj) : (o.mapPath f).label = o.label := rfl
+theorem mapPaths_label (f : Path → Path) (e : Edge) : (e.mapPaths f).label = e.label := rfl
+
+theorem renumberAfter_label (e f : Edge) : (Spec.renumberAfter e f).label = f.label := by
+  unfold Spec.renumberAfter; split <;> rfl
+
+theorem reconnectEdge_label (e : Edge) (s t : Path) (i : Nat) (f : Edge) : (Spec.reconnectEdge e s t i f).label = f.label := by
+  unfold Spec.reconnectEdge
+  split
+  · rfl
+  · simp only
+    split
+    · simp [renumberAfter_label]
+    · exact renumberAfter_label e f
+
+/-- **C40, delete of an object** (children hoisted with any choice `ren` of collision names) -/
+theorem deltas_agree_delete (d : Diagram) (x : Path) (ren : List (String × String))
+    (hl : LabelsUnique d) (hi : IdsUnique d) :
+    deltasAgree d.elems (Spec.deleteObj d x ren).elems (Spec.deleteObjDeltas d x ren) = true :=
+  apply_deltas_agree d _ _ _ _ (mapPath_label _) (mapPaths_label _) hl hi
+
+/-- **C40, delete of a connection** (later parallel connections renumbered) -/
+theorem deltas_agree_delete_edge (d : Diagram) (e : Edge) (hl : LabelsUnique d) (hi : IdsUnique d) :
+    deltasAgree d.elems (Spec.deleteEdge d e).elems (Spec.deleteEdgeDeltas d e) = true :=
+  apply_deltas_agree d _ _ _ _ (fun _ => rfl) (renumberAfter_label e) hl hi
+
+/-- **C40, rename / move with descendants** -/
+theorem deltas_agree_rename (d : Diagram) (x n : Path) (hl : LabelsUnique d) (hi : IdsUnique d) :
+    deltasAgree d.elems (Spec.moveWith d x n).elems (Spec.moveWithDeltas d x n) = true :=
+  apply_deltas_agree d _ _ _ _ (mapPath_label _) (mapPaths_label _) hl hi
+
+/-- **C40, move without descendants** (children stay in the former parent) -/
+theorem deltas_agree_move (d : Diagram) (x n : Path) (ren : List (String × String))
+    (hl : LabelsUnique d) (hi : IdsUnique d) :
+    deltasAgree d.elems (Spec.moveWithout d x n ren).elems (Spec.moveWithoutDeltas d x n ren) = true :=
+  apply_deltas_agree d _ _ _ _ (mapPath_label _) (mapPaths_label _) hl hi
+
+/-- **C40, reconnect** -/
+theorem deltas_agree_reconnect (d : Diagram) (e : Edge) (s t : Path) (i : Nat)
+    (hl : LabelsUnique d) (hi : IdsUnique d) :
+    deltasAgree d.elems (Spec.reconnect d e s t i).elems (Spec.reconnectDeltas d e s t i) = true :=
+  apply_deltas_agree d _ _ _ _ (fun _ => rfl) (reconnectEdge_label e s t i) hl hi
+
+/-! the hypotheses are what the executable checks of the driver establish -/
+
+theorem nodupStr_iff (l : List String) : nodupStr l = true ↔ l.Nodup := by
+  induction l with
+  | nil => simp [nodupStr]
+  | cons a r ih =>
+    simp only [nodupStr, Bool.and_eq_true, Bool.not_eq_true', List.nodup_cons, ih]
+    constructor
+    · rintro ⟨h1, h2⟩
+      exact ⟨by simpa using h1, h2⟩
+    · rintro ⟨h1, h2⟩
+      exact ⟨by simpa using h1, h2⟩
+
+theorem uniqueLabels_sound (d : Diagram) (h : d.uniqueLabels = true) : LabelsUnique d := by
+  unfold Diagram.uniqueLabels at h
+  simp only [Bool.and_eq_true] at h
+  exact ⟨(nodupStr_iff _).mp h.1, (nodupStr_iff _).mp h.2⟩
+
+/-- non-vacuity: a diagram with a container, a child, two parallel connections; deleting the container -/
+def exDiagram : Diagram :=
+  { objs := [⟨["a"], "L1", []⟩, ⟨["a", "b"], "L2", []⟩, ⟨["c"], "L3", []⟩],
+    edges := [⟨["a", "b"], ["c"], false, true, 0, "E1", []⟩, ⟨["a", "b"], ["c"], false, true, 1, "E2", []⟩,
+              ⟨["a"], ["c"], false, true, 0, "E3", []⟩] }
+
+example : LabelsUnique exDiagram ∧ IdsUnique exDiagram := by
+  refine ⟨⟨by decide, by decide⟩, ⟨by decide, by decide⟩⟩
+
+example : Spec.deleteObjDeltas exDiagram ["a"] [] =
+    [(.obj ["a", "b"], .obj ["b"]), (.edge ["a", "b"] ["c"] false true 0, .edge ["b"] ["c"] false true 0),
+     (.edge ["a", "b"] ["c"] false true 1, .edge ["b"] ["c"] false true 1)] := by decide
+
+/-- the defect class C40-delete-deltas-predict-for-removed-edges, stated on the witness: a prediction for the
+    connection `a -> c`, which the delete of `a` removes, violates the property predicate -/
+theorem C40_cx_prediction_for_removed_edge :
+    deltasAgree exDiagram.elems (Spec.deleteObj exDiagram ["a"] []).elems
+      ((.edge ["a"] ["c"] false true 0, .edge ["c"] ["c"] false true 0) :: Spec.deleteObjDeltas exDiagram ["a"] []) = false := by
+  decide
 
 end D2V.Edit
